@@ -638,7 +638,7 @@ theorem unclassified_constraints_pinned :
       [(.LendingPoolAddBankKamino, .f_integration_acc_1, 1294895318964715725), (.KaminoDeposit, .f_integration_acc_2, 102789841884831255),
        (.KaminoDeposit, .f_integration_acc_2, 2232305478470895852), (.KaminoWithdraw, .f_integration_acc_2, 2232305478470895852),
        (.KaminoWithdraw, .f_integration_acc_2, 102789841884831255), (.LendingAccountSettleEmissions, .f_marginfi_account, 1925430640847475726),
-       (.EndDeleverage, .f_liquidation_record, 800305038196698214), (.LendingPoolAddBankSolend, .f_integration_acc_1, 1481642461694787521),
+       (.LendingPoolAddBankSolend, .f_integration_acc_1, 1481642461694787521),
        (.SolendDeposit, .f_integration_acc_2, 1332785733999453949), (.SolendWithdraw, .f_integration_acc_2, 1332785733999453949),
        (.LendingPoolUpdateFeesDestinationAccount, .f_destination_account, 2287509815940661847), (.LendingPoolWithdrawFeesPermissionless, .f_fees_destination_account, 442390752958412362),
        (.PropagateStakedSettings, .f_bank, 192467567798966075), (.LendingPoolAddBankDrift, .f_integration_acc_1, 778144333709451630),
